@@ -1,5 +1,6 @@
-"""C02: right-hand-side build correspondence / convergence table -- filled in with the solver harness."""
+"""C02: what is still outside the check."""
 
 
 def run(res, tier, seed):
-    res.assumptions.append('K-rhs (discretised right-hand side of setup()) is not yet covered by this revision of the check')
+    res.assumptions.append('the sampling of the source term / boundary data into the right-hand side (build_rhs_f) and the uncached-geometry path of '
+                           'discretize_rhs_f are not compared; the convergence ORDER itself is not decided (see DESIGN.md 5/C02)')
